@@ -51,7 +51,6 @@ func VerifReadErrClass(err error) string {
 	return "other"
 }
 
-func VerifIsTrzszLetter(b byte) bool { return isTrzszLetter(b) }
 func VerifIsVT100End(b byte) bool    { return isVT100End(b) }
 
 // ---- transfer.go recvLine / stripTmuxStatusLine ----
